@@ -3,18 +3,55 @@
 The function runs in a child that has pymoca importable from VERIF_REPO; results must be
 JSON-able / picklable.  Exceptions raised by the function itself are machinery failures
 (adapters must catch exceptions of the code under test and return them as observations).
+
+start() may be called early in a check (before large TLC logs are loaded): the pool is then
+forked from a small parent, which avoids copying a huge address space 16 times; pmap() reuses it.
 """
+import atexit
 import os
 from concurrent.futures import ProcessPoolExecutor
 import multiprocessing as mp
 
+_pool = None
+_pool_procs = 0
+
+
+def nprocs(procs=None):
+    return procs or min(16, os.cpu_count() or 4, int(os.environ.get("VERIF_PROCS", "16")))
+
+
+def start(procs=None):
+    """fork the worker pool now (idempotent)"""
+    global _pool, _pool_procs
+    if _pool is None:
+        _pool_procs = nprocs(procs)
+        if _pool_procs > 1:
+            _pool = ProcessPoolExecutor(max_workers=_pool_procs, mp_context=mp.get_context("fork"))
+            # make the workers exist now, not lazily at the first submit
+            list(_pool.map(_noop, range(_pool_procs * 2)))
+            atexit.register(stop)
+    return _pool
+
+
+def _noop(x):
+    return x
+
+
+def stop():
+    global _pool
+    if _pool is not None:
+        _pool.shutdown(wait=False, cancel_futures=True)
+        _pool = None
+
 
 def pmap(fn, items, procs=None, chunksize=None):
     items = list(items)
-    procs = procs or min(16, os.cpu_count() or 4, int(os.environ.get("VERIF_PROCS", "16")))
+    procs = nprocs(procs)
     if procs <= 1 or len(items) < 4:
         return [fn(x) for x in items]
     chunksize = chunksize or max(1, len(items) // (procs * 8))
+    if _pool is not None:
+        return list(_pool.map(fn, items, chunksize=chunksize))
     ctx = mp.get_context("fork")
     with ProcessPoolExecutor(max_workers=procs, mp_context=ctx) as ex:
         return list(ex.map(fn, items, chunksize=chunksize))
